@@ -8,7 +8,7 @@ RULE = ('one input = (label, dt, values) saved with eqsig.save_signal (Signal an
         'the file text is compared byte for byte with the model writer, then every loader entry point (load_values_and_dt, load_signal[signal|acc_sig|default], load_sig[m], load_asig[load_label, m]) '
         'is called on it and its values/dt/label/npts/type are compared EXACTLY (tolerance 0: decimal parsing, nearest-binary64 rounding and the product with m are modelled bit for bit) with the model reader, '
         'and the property predicate (npts, dt to 4 decimals, values to 6 decimals times m, label, type) is evaluated on the implementation outputs themselves. '
-        'values: dyadic ties of the 6th decimal ((2k+1)/128), decimal near-ties, tiny magnitudes (1e-9..1e-5, both signs, -0.0), up to 1e18, slices of the shipped record, integer arrays; 1..400 (quick) / 1500 (thorough) samples; '
+        'values: dyadic ties of the 6th decimal ((2k+1)/128), decimal near-ties, tiny magnitudes (1e-9..1e-5, both signs, -0.0), up to 1e18, slices of the shipped record, integer arrays; 1..400 (quick) / 1500 (thorough) samples, plus records of exactly 1000 and 2000 (thorough: 3000) samples (an 8-sample pattern repeated); '
         'dt: 1e-4..100 log-uniform, the usual 0.01/0.005/0.02, dyadic ties of the 4th decimal (2^-5, 3*2^-5), dt >= 1 (1.5, 12.25, 100, Python ints); labels: printable ASCII with spaces, leading/trailing blanks, empty, "#", ",", quotes; '
         'm in {omitted, 1, 2, 0.5, -1, 9.81, 0.1, 1e-3, 100, int 3, random}; hand-made variants of saved files (trailing newline, blank lines, padded values, extra column, comments, exponent notation = the shipped test file) exercise the reader model alone; '
         'non-trivial = at least one value is not an integer multiple of 1e-6 or dt is not a multiple of 1e-4 or m != 1 or the label is not the default')
@@ -256,6 +256,14 @@ def run(rep, rng, tier):
                   ('neg zero', 0.01, [-0.0, 0.0, -4e-7, 4e-7, -5e-7, 5e-7, -5.000001e-7]), ('big', 0.02, [1e15 + 0.25, -123456789.1234565, 2.0 ** 60, 1e-9]),
                   ('', 2, [3]), ('tie dt', 2.0 ** -5, [1, 2, 3]), ('tie dt up', 3 * 2.0 ** -5, [1.0]), ('carry', 0.99995, [0.9999995, 9.9999995, -99.9999995, 0.99999949])]
         inputs = [(lab, dt, np.array(v, dtype=float if not all(isinstance(x, int) for x in v) else int), 'corpus') for lab, dt, v in corpus]
+        # record lengths that are exact multiples of 1000 (a writer that streams the record in blocks has its boundary there):
+        # a short pattern repeated, so that the case stays cheap; one of them with small integers stored as int
+        for j, nblk in enumerate((1000, 2000) if tier == 'quick' else (1000, 2000, 3000, 1000, 2000)):
+            if j % 2 == 0:
+                pat = np.array([rng.randint(-9, 9) for _ in range(8)], dtype=int)
+            else:
+                pat = np.array([rng.choice([0.5, -1.25, 2.0, 0.0078125, -3.0, 0.015625, 7.0, -0.75]) for _ in range(8)], dtype=float)
+            inputs.append((rng.choice(['m1', 'blocks', 'a b']), rng.choice([0.01, 0.005, 0.5]), np.tile(pat, nblk // 8), 'len=k*1000'))
         for k in range(N):
             n = gens.small_len(rng, 1, maxlen)
             vals, style = gen_values(rng, n)
